@@ -34,6 +34,11 @@ pub fn run<A: Cx>(d: &mut Drv<A>, scale: usize) {
             let r = i % 8;
             let t = d.rand_text(n);
             d.emit(json!({"op": "parse", "dst": r, "c": A::NAME, "entry": "vec", "bytes": t}));
+            // the whole owned value through its own receiver
+            {
+                let p = probes(n);
+                d.emit(json!({"op": "obs", "src": {"base": "reg", "r": r, "path": [], "acc": "seq"}, "gets": p, "nths": p}));
+            }
             for _ in 0..6 {
                 let mut src = d.rand_src(r);
                 let mut m = n;
